@@ -288,6 +288,11 @@ func (c *channelInstance) verifyAndDecrypt(m *MessageChunk, r []byte) ([]byte, e
 		b = append(b[:headerLength], p...)
 	}
 
+	// A secured chunk consists of at least its headers and a signature.
+	if len(b) < headerLength+c.algo.RemoteSignatureLength() {
+		return nil, ua.StatusBadSecurityChecksFailed
+	}
+
 	signature := b[len(b)-c.algo.RemoteSignatureLength():]
 	messageToVerify := b[:len(b)-c.algo.RemoteSignatureLength()]
 
@@ -304,6 +309,11 @@ func (c *channelInstance) verifyAndDecrypt(m *MessageChunk, r []byte) ([]byte, e
 			paddingLength += 1
 		}
 		paddingLength += 1
+	}
+
+	// The padding announced by the PaddingSize byte(s) must lie within the body.
+	if paddingLength > len(messageToVerify)-headerLength {
+		return nil, ua.StatusBadSecurityChecksFailed
 	}
 
 	b = messageToVerify[headerLength : len(messageToVerify)-paddingLength]
